@@ -145,6 +145,9 @@ func (f *Fixture) ReloadLoop(mut func(*config.MockConfig)) {
 		r()
 	}
 	f.QuiesceAll()
+	for w := 0; w < f.N; w++ {
+		f.refreshCtl(w)
+	}
 }
 
 // SenderIdle waits until the outgoing queue is empty. (The body of the last transmission may still be
